@@ -18,7 +18,7 @@ def wfB (c : Cfg) : Rp → Bool
     if isDense c bits then cap == a.size && 0 < cap && words && szc
     else if isPlain c bits then
       0 < a.size && inv a 0 && cutB a 0 && sz == (a.toList.filter (· ≠ 0)).length && bits != 0 &&
-      cap == a.size && c.W < bits && words
+      cap == a.size && c.W < bits && words && bits < 2 ^ c.W
     else
       cap == a.size && 0 < cap && 0 < bits && bits < c.W && inv a bits && cutB a bits &&
       a.toList.all (fun w => w == 0 || (w % 2 ^ bits != 0)) && words &&
